@@ -280,3 +280,78 @@ Definition run_grid1d (rows_axis : bool) (ai : bool) (R C th tw : Z)
   VL (flat_map (fun s => map (fun e =>
         if rows_axis then run_img_full R C th tw planes ai s e None None
         else run_img_full R C th tw planes ai None None s e) ends) starts).
+
+(* ---------------------------------------------------------------------- *)
+(* geometry of the tiled segmentation relative to its source image           *)
+(* (Segmentation.__init__, tile_pixel_array branch, sop.py 749-753 and        *)
+(*  1027-1116; _add_slide_coordinate_metadata)                               *)
+(* ---------------------------------------------------------------------- *)
+(* `tile_size = tile_size or (src_img.Rows, src_img.Columns)` *)
+Definition eff_tile (ts : option (Z * Z)) (sth stw : Z) : Z * Z :=
+  match ts with Some t => t | None => (sth, stw) end.
+
+(* plane_positions given with tile_pixel_array: exactly one item, at pixel
+   matrix position (1, 1); argument = (number of items, row, column of the first) *)
+Definition pp_ok (pp : option (Z * Z * Z)) : bool :=
+  match pp with
+  | None => true
+  | Some (n, rp, cp) => (n =? 1) && (rp =? 1) && (cp =? 1)
+  end.
+
+(* are_total_pixel_matrix_locations_preserved: same origin, and the
+   orientation / pixel spacing either not given by the caller or equal to the
+   source image's *)
+Definition tpm_preserved (origin_same user_ori ori_same user_meas meas_same : bool) : bool :=
+  origin_same && (negb user_ori || ori_same) && (negb user_meas || meas_same).
+
+(* the TotalPixelMatrixRows/Columns the segmentation declares for an R x C
+   mask of a source with SR x SC total pixel matrix in sth x stw tiles:
+   the shape guard, are_spatial_locations_preserved, and the two branches of
+   _add_slide_coordinate_metadata (copy from the source / shape of the array) *)
+Definition seg_declared (pres : bool) (R C SR SC th tw sth stw : Z) : res (Z * Z) :=
+  if pres then
+    if negb ((R =? SR) && (C =? SC)) then Err "ValueError"
+    else if (th =? sth) && (tw =? stw) then Ok (SR, SC) else Ok (R, C)
+  else Ok (R, C).
+
+Record geom := mkGeom {
+  g_SR : Z; g_SC : Z; g_sth : Z; g_stw : Z;          (* source matrix and tile size *)
+  g_tile : option (Z * Z);                           (* tile_size argument *)
+  g_pp : option (Z * Z * Z);                         (* plane_positions argument *)
+  g_origin_same : bool; g_user_ori : bool; g_ori_same : bool;
+  g_user_meas : bool; g_meas_same : bool }.
+
+Definition g_pres (g : geom) : bool :=
+  tpm_preserved (g_origin_same g) (g_user_ori g) (g_ori_same g) (g_user_meas g) (g_meas_same g).
+
+(* construction with geometry: (tile rows, tile columns, declared rows,
+   declared columns, frames as the READER will see them).  The frames are cut
+   from the R x C mask; a TILED_FULL reader re-derives positions from the
+   DECLARED matrix size. *)
+Definition stored_geom (ty : segtype) (maxfrac : Z) (full omit : bool) (planes : list plane)
+           (segs : list Z) (R C : Z) (g : geom) : res (Z * Z * Z * Z * list stile) :=
+  let th := fst (eff_tile (g_tile g) (g_sth g) (g_stw g)) in
+  let tw := snd (eff_tile (g_tile g) (g_sth g) (g_stw g)) in
+  if negb (pp_ok (g_pp g)) then Err "ValueError"
+  else
+    bind (seg_declared (g_pres g) R C (g_SR g) (g_SC g) th tw (g_sth g) (g_stw g)) (fun d =>
+    bind (seg_store ty maxfrac full omit planes R C th tw) (fun st =>
+      Ok (th, tw, fst d, snd d,
+          if full then reimply_full segs (fst d) (snd d) th tw st else st))).
+
+(* construct once with geometry; observe tile size, declared matrix size,
+   number of frames, and several regions read against the DECLARED size *)
+Definition run_seg_geom (ty : segtype) (maxfrac : Z) (full omit : bool) (planes : list plane)
+           (segs sel : list Z) (R C : Z) (g : geom) (regions : list region) : val :=
+  match stored_geom ty maxfrac full omit planes segs R C g with
+  | Err k => VErr k
+  | Ok (th, tw, RD, CD, st) =>
+      VL (VZ (Z.of_nat (length st)) :: VZ th :: VZ tw :: VZ RD :: VZ CD ::
+          map (fun rg : region =>
+                 match rg with (ai, (rs, re, cs, ce)) =>
+                   match ty with
+                   | Labelmap => vres vz_list2 (seg_read_labelmap st sel RD CD th tw ai rs re cs ce)
+                   | _ => vres (fun l => VL (map vz_list2 l)) (seg_read st sel RD CD th tw ai rs re cs ce)
+                   end
+                 end) regions)
+  end.
